@@ -249,6 +249,8 @@ def coq_case(out, multi, cores, ids):
 def oracle(case, s, m):
     """The property stated on the two real runs.  Returns (list of failure messages, list of exclusions)."""
     fails, excl = [], []
+    if is_f7(case, s, m):
+        return fails, ["F7"]
     for name, o in (("single-process", s), ("multi-process", m)):
         if o["status"] == "timeout":
             fails.append("%s run did not finish within the timeout (deadlock?) stages=%s"
@@ -284,6 +286,16 @@ def oracle(case, s, m):
     return fails, excl
 
 
+def is_f7(case, s, m):
+    """Finding F7 (outside the property's quantifier: cell-veto out-states draw random numbers): under the
+    multi-process mediator the target cell returned by a cell-veto worker is a pickled copy and is not a key of
+    the cell occupancy -> KeyError in get_arguments_cell_veto_event_handler.  Matched on call site + input class."""
+    return (case["scope"] == "B" and s["status"] == "ok" and m["status"] == "exception"
+            and m.get("exception", "").startswith("KeyError") and "Cell object" in m.get("exception", "")
+            and "get_arguments_cell_veto_event_handler" in m.get("traceback", "")
+            and any("CellVeto" in h[0] for h in s.get("handlers", [])))
+
+
 def trim(o):
     o = dict(o)
     ev = o.get("events", [])
@@ -301,7 +313,7 @@ def run(ctx, cases_override=None):
     single, multi = run_all(ctx, cases)
     ids = Ids()
     terms, owner = [], []
-    fails, exclusions = [], []
+    fails, exclusions, f7 = [], [], []
     stats = dict(commits=0, ahead_received=0, ahead_used=0, ahead_discarded=0, trash_in_oss=0, batches=0,
                  batches_gt1=0, distinct_schedules=set(), cores={}, legs=0)
     done_single = set()
@@ -311,6 +323,9 @@ def run(ctx, cases_override=None):
         f, ex = oracle(case, s, m)
         if f:
             fails.append((ci, f))
+            continue
+        if ex == ["F7"]:
+            f7.append(ci)
             continue
         if ex:
             exclusions.append((ci, ex))
@@ -359,6 +374,14 @@ def run(ctx, cases_override=None):
         d.update(extra)
         return d
 
+    if f7:
+        what = ("MultiProcessMediator with a cell-veto event handler: KeyError <Cell object> in "
+                "get_arguments_cell_veto_event_handler (the cell returned through the pipe is a pickled copy); "
+                "%d probe run(s), e.g. %s" % (len(f7), cases[f7[0]]["cfg"]))
+        if any(k.get("id") == "F7" for k in C.known_open("C20")):
+            C.known(ctx, "F7", what)
+        else:
+            ctx.notes.append("finding F7 (not listed in known_findings.json, outside the property's quantifier): " + what)
     if fails:
         ci, f = fails[0]
         C.violation(ctx, "oracle", rep(ci, {"message": f, "n_failing_cases": len(fails)}),
@@ -373,6 +396,9 @@ def run(ctx, cases_override=None):
                     "mediator model and implementation disagree on the recorded event sequence", nofail=True)
     elif broken:
         C.violation(ctx, "obligation", {"kind": "obligation", "broken": broken}, broken[0][:200], nofail=True)
+    tie_probe = None
+    if not ctx.quick() and cases_override is None:
+        tie_probe = run_tie_probe(ctx)
     cfgs = sorted({c["cfg"] for c in cases})
     C.write_evidence(ctx, {
         "evaluations": len(cases) + len(single),
@@ -396,6 +422,8 @@ def run(ctx, cases_override=None):
             "pre-computed out-states drained in the trash loop (stage out_state_started)": stats["trash_in_oss"],
             "excluded_cases": [[cases[i]["cfg"], e] for i, e in exclusions][:20],
             "n_excluded": len(exclusions),
+            "cell-veto probes that hit finding F7": len(f7),
+            "tie probe (documentation of the strict-minimum hypothesis, never decides pass/fail)": tie_probe,
         },
         "model_vs_impl_mismatches": len(mism),
         "oracle_failures": len(fails),
@@ -407,6 +435,23 @@ def run(ctx, cases_override=None):
                        % (nthm, len(cases), len(single)),
         "trusted_base": TRUSTED,
     }, ASSUME)
+
+
+def run_tie_probe(ctx):
+    """single_hard_disk_dipole.ini (list scheduler) with end_of_run_time == chain_time: the end-of-chain and the
+    end-of-run candidate tie in the leg after the start of the run; which one the scheduler returns depends on
+    the arrival order under the multi-process mediator (tie_sensitivity_refuted on the real code)."""
+    base = dict(ini="config_files/hard_disk_dipoles/single_hard_disk_dipole.ini", set=_e("0.5"), seed=1,
+                stream="handler", timeout=100)
+    pls = [dict(base, mediator="single")] + [dict(base, mediator="multi", cores=4, delay_seed=d, max_delay_ms=8.0)
+                                             for d in range(8)]
+    outs = C.run_driver_parallel(ctx, "c20_multi", pls[:5], timeout=300) + \
+        C.run_driver_parallel(ctx, "c20_multi", pls[5:], timeout=300)
+    seqs = [[e[1] for e in o["events"] if e[0] == "commit"] for o in outs]
+    return {"single_process_commit_handlers": seqs[0], "ties_at_minimum_in_single_run": min_ties(outs[0]["events"])[0],
+            "multi_process_runs": len(seqs) - 1,
+            "multi_process_runs_with_a_different_commit_sequence": sum(1 for q in seqs[1:] if q != seqs[0]),
+            "distinct_multi_process_commit_sequences": [list(x) for x in sorted({tuple(q) for q in seqs[1:]})]}
 
 
 TRUSTED = [
